@@ -106,6 +106,7 @@ inductive Outcome where
   | silent      -- never started: coordinator silent until CoordinatorTimeout (a CoordinatorError)
   | gto         -- never started: global time-out (TssTimeout)
   | cancel      -- never started: caller's context cancelled
+  | precancel   -- never started: the context was already cancelled when Execute was entered
   | badstart    -- never started: start message does not parse
   | stranger    -- never started: start/initiate only from a relayer that is not the coordinator, then silence
   | readyerr    -- never started: the process refuses the ready set (`Ready` returns an error)
@@ -119,7 +120,7 @@ def Outcome.ran : Outcome → Bool
 
 /-- `Execute` returns nil exactly when `start` returned nil: success, or the context was cancelled -/
 def Outcome.retOk : Outcome → Bool
-  | .ok | .cancelrun | .cancel => true
+  | .ok | .cancelrun | .cancel | .precancel => true
   | _ => false
 
 /-- who coordinates the SECOND attempt (`handleError`, retryable processes only) -/
@@ -149,6 +150,7 @@ def End2.retOk : End2 → Bool
 structure Second where
   elected : Elected
   fin     : End2
+  alive   : Nat := 0   -- alive answers (of relayers ranked behind this one) that arrive during the election
 deriving DecidableEq, Repr
 
 /-- a stream the stream manager holds for a session: the peer it leads to, and whether its `Close()` will return an
@@ -156,6 +158,7 @@ deriving DecidableEq, Repr
 structure Strm where
   peer       : Nat
   failsClose : Bool
+  failsWrite : Bool := false   -- every write on it fails, from the first one on (connection dropped after NewStream)
 deriving DecidableEq, Repr
 
 structure Sess where
@@ -238,6 +241,7 @@ structure Report where
   close    : Nat          -- CloseSession calls
   live     : Nat          -- subscriptions of the session id still registered at exit
   streams  : Nat          -- streams of the session id still registered at exit
+  unclosed : Nat          -- streams the session opened that nobody ever closes
   stale    : Nat          -- streams of this session that were refused because a stale one was still registered
   runs     : List Nat     -- per process: Run calls
   stops    : List Nat     -- per process: Stop calls
@@ -260,6 +264,12 @@ def waitSubs2 : Elected → Nat
 def addStreams (cur new : List Strm) : List Strm :=
   cur ++ new.filter (fun x => !cur.any (·.peer = x.peer))
 
+/-- `sendMessage` registers a stream as soon as it is opened, whether or not the first write succeeds -/
+def registerAll (new : List Strm) : List Strm := new
+
+/-- the seeded variant: a stream is registered only after its first write succeeded -/
+def registerWritten (new : List Strm) : List Strm := new.filter (fun x => !x.failsWrite)
+
 /-- streams of a session that `AddStream` ignored because a stale entry was still registered -/
 def staleHits (cur new : List Strm) : Nat := (new.filter (fun x => cur.any (·.peer = x.peer))).length
 
@@ -269,22 +279,29 @@ def releaseAll (_ : List Strm) : List Strm := []
 /-- the seeded variant: a stream whose `Close()` fails stays registered "so that closing is tried again" -/
 def releaseKeepFailed (ss : List Strm) : List Strm := ss.filter (·.failsClose)
 
-/-- a bully election (repaired elector): six subscriptions and the election streams, all given back when it ends -/
-def election (l : Led) (sid : Sid) : Led :=
+/-- a bully election (repaired elector): six subscriptions and the election streams; `alive` answers are forwarded to
+    `elect()` (or dropped after 500 ms when nobody takes them) and touch no registry; everything is given back when
+    the election ends -/
+def election (l : Led) (sid : Sid) (_alive : Nat) : Led :=
   let (l1, e) := l.esub sid 6
   let l2 := { l1 with estreams := sid :: l1.estreams }
   let l3 := l2.eunsub sid e
   { l3 with estreams := l3.estreams.filter (· ≠ sid) }
 
 /-- as found, the elector dropped its subscription ids and nobody closed the election streams -/
-def electionAsFound (l : Led) (sid : Sid) : Led :=
+def electionAsFound (l : Led) (sid : Sid) (_alive : Nat) : Led :=
   let (l1, _) := l.esub sid 6
   { l1 with estreams := sid :: l1.estreams }
 
+/-- the seeded variant: forwarding an alive answer blocks once `electionChan` (capacity 1, read at most once) is full;
+    from the third answer on the listener never reaches its clean-up -/
+def electionWedging (l : Led) (sid : Sid) (alive : Nat) : Led :=
+  if alive ≥ 3 then electionAsFound l sid alive else election l sid alive
+
 /-- the second attempt inside `handleError`: election unless the cause is SubsetError; wait loop; the processes run
     again (each releasing its previous subscription first); the loop's deferred releases -/
-def secondAttempt (elect : Led → Sid → Led) (l : Led) (s : Sess) (t : Second) (b1 : Option Nat) : Led × Option Nat :=
-  let l2 := if t.elected = .any then l else elect l s.sid
+def secondAttempt (elect : Led → Sid → Nat → Led) (l : Led) (s : Sess) (t : Second) (b1 : Option Nat) : Led × Option Nat :=
+  let l2 := if t.elected = .any then l else elect l s.sid t.alive
   let (l3, c) := l2.sub s.sid (waitSubs2 t.elected)
   let (l4, b2) := if t.fin.ran then
       let (l', b) := (l3.unsubOpt s.sid b1).sub s.sid s.nproc
@@ -296,10 +313,11 @@ def secondAttempt (elect : Led → Sid → Led) (l : Led) (s : Sess) (t : Second
 def Sess.handled (s : Sess) : Bool := s.retryable && !s.out.retOk
 
 /-- `Execute` for one session, in the order the code performs the calls. `elect` = the elector's behaviour. -/
-def executeWith (elect : Led → Sid → Led) (release : List Strm → List Strm) (l : Led) (s : Sess) : Led × Report :=
+def executeWith (elect : Led → Sid → Nat → Led) (release : List Strm → List Strm) (register : List Strm → List Strm)
+    (l : Led) (s : Sess) : Led × Report :=
   if s.sid ∈ l.pending then
     -- refused before anything is registered; the (never started) processes are stopped
-    (l, ⟨.refused, 0, 0, 0, liveOf l.live s.sid, (l.streams s.sid).length, 0,
+    (l, ⟨.refused, 0, 0, 0, liveOf l.live s.sid, (l.streams s.sid).length, 0, 0,
         List.replicate s.nproc 0, List.replicate s.nproc 1, true,
         liveOf l.elive s.sid, if s.sid ∈ l.estreams then 1 else 0⟩)
   else
@@ -307,7 +325,7 @@ def executeWith (elect : Led → Sid → Led) (release : List Strm → List Strm
     -- watchExecution + start (waitForStart | initiate) subscribe
     let (l2, a) := l1.sub s.sid (waitSubs s.role)
     -- broadcasting (initiate / ready / start messages) opens streams under the session id
-    let l3 := { l2 with streams := upd l2.streams s.sid (addStreams (l2.streams s.sid) s.opened) }
+    let l3 := { l2 with streams := upd l2.streams s.sid (addStreams (l2.streams s.sid) (register s.opened)) }
     -- every process subscribes in Run
     let (l4, b1) := if s.out.ran then
         let (l', b) := l3.sub s.sid s.nproc
@@ -335,12 +353,15 @@ def executeWith (elect : Led → Sid → Led) (release : List Strm → List Strm
       | none => false)
     (l9, ⟨if retOk then .ok else .err,
           l9.subs - l.subs, l9.unsubs - l.unsubs, 1,
-          liveOf l9.live s.sid, (l9.streams s.sid).length, staleHits (l.streams s.sid) s.opened,
+          liveOf l9.live s.sid, (l9.streams s.sid).length,
+          -- opened streams that were never registered are never closed by anybody
+          s.opened.length - (register s.opened).length,
+          staleHits (l.streams s.sid) s.opened,
           List.replicate s.nproc ((if s.out.ran then 1 else 0) + (if ran2 then 1 else 0)), List.replicate s.nproc 1,
           decide (s.sid ∈ l9.pending),
           liveOf l9.elive s.sid, if s.sid ∈ l9.estreams then 1 else 0⟩)
 
-def execute : Led → Sess → Led × Report := executeWith election releaseAll
+def execute : Led → Sess → Led × Report := executeWith election releaseAll registerAll
 
 /-- sessions one after another on one coordinator -/
 def executeAll (l : Led) : List Sess → Led × List Report
@@ -352,7 +373,7 @@ def executeAll (l : Led) : List Sess → Led × List Report
 
 /-- the property of one finished session, on a report (the driver evaluates it on the implementation's report) -/
 def Clean (nproc : Nat) (rep : Report) : Prop :=
-  rep.ret ≠ .refused ∧ rep.sub = rep.unsub ∧ 1 ≤ rep.close ∧ rep.live = 0 ∧ rep.streams = 0 ∧ rep.stale = 0 ∧
+  rep.ret ≠ .refused ∧ rep.sub = rep.unsub ∧ 1 ≤ rep.close ∧ rep.live = 0 ∧ rep.streams = 0 ∧ rep.unclosed = 0 ∧ rep.stale = 0 ∧
   rep.stops = List.replicate nproc 1 ∧ (∀ n ∈ rep.runs, n ≤ 2) ∧ rep.pend = false ∧
   rep.elive = 0 ∧ rep.estreams = 0
 
